@@ -51,7 +51,7 @@ type op struct {
 }
 
 type prog struct {
-	Kind   string `json:"kind"` // run | extra | ct
+	Kind   string `json:"kind"` // run | extra | ct | fresh | addr
 	Idx    int    `json:"idx"`
 	Elem   string `json:"elem,omitempty"`
 	NA     int    `json:"na,omitempty"`
@@ -63,6 +63,33 @@ type prog struct {
 	Types  string `json:"types,omitempty"`
 	Ct     *ctc   `json:"ct,omitempty"`
 	Corpus string `json:"corpus,omitempty"`
+	// Defer (corpus files only): the exact input of a finding that is not yet registered in known_findings.json; while
+	// its key is not registered a failure is listed in report.json extra "deferred_corpus_failures" instead of being
+	// reported (the coordinator registers the key or applies the fix; then the flag has no effect any more)
+	Defer bool `json:"defer_until_registered,omitempty"`
+}
+
+// registeredKeys: the keys (key + other_keys) recorded for property C08 in $VERIF_DIR/known_findings.json
+func registeredKeys(dir string) map[string]bool {
+	out := map[string]bool{}
+	var kf struct {
+		Findings []struct {
+			Property string   `json:"property"`
+			Key      string   `json:"key"`
+			Other    []string `json:"other_keys"`
+		} `json:"findings"`
+	}
+	if b, err := os.ReadFile(filepath.Join(dir, "known_findings.json")); err == nil && json.Unmarshal(b, &kf) == nil {
+		for _, f := range kf.Findings {
+			if f.Property == "C08" {
+				out[f.Key] = true
+				for _, k := range f.Other {
+					out[k] = true
+				}
+			}
+		}
+	}
+	return out
 }
 
 type ctc struct {
@@ -781,14 +808,21 @@ func main() {
 		"fresh: one source occurrence of an allocating expression (element-less/keyed/positional/nested/elided composite literals of struct, array, slice, map type with and without &, new, make, address of a local, slice of a literal; every site of the table in fresh.go at least twice per run) "+
 		"evaluated 2..4 times in one of 23 contexts (loop, range, goto loop, function/closure/method called repeatedly, recursion; result defined, assigned, stored in array/map/field/channel, passed, boxed, returned), all results kept alive, "+
 		"then written through one at a time and all read after every write, pointer/channel identities compared; "+
+		"cidx: a constant index/key applied directly to a composite literal O{e0, e1}[c] inside a function body, table of cidx.go enumerated (element type int64 / plain struct / SELF-REFERENTIAL struct with *T, []T, map[string]T link, declared freshly per section; "+
+		"held as []T, [1]T, []*T, map[string]T, T, *T; outer []E, [2]E, map[string]E, map[int]E; inner types written or elided; nil pointer elements; value returned / typed var / := / argument / assigned / struct field / closure result), window rotated by the seed (thorough: the whole table); "+
+		"addr: one program per int-like kind (16): functions returning &x of a local (owned by the function scope / by a block) taken from inside 0..4 nested Env-owning scopes (blocks with locals, for/if/switch headers with :=), "+
+		"each called twice with other calls in between, pointers compared, read, written independently; "+
 		"a run case is non-trivial when it executed >= 3 operations of which >= 1 slicing/append/copy/map operation; distinct by SHA-256 of the source")
 	nRun, nExtra, nCt, perShard := 200, 80, 120, 100
 	nFresh := 2 * ((len(fsites) + 2) / 3) // 3 sites per program: every site is used twice
+	const cidxSec = 6
+	nCidx := 40 // 240 of the ~1500 combinations of cidx.go per quick run, window rotated by the seed
 	if a.Thorough() {
 		// the compiled-Go oracle is one package per program: 6000/1500/2500 programs took 55 min to build on the loaded
 		// machine (0.33 s per package); 10x the quick tier stays near 20 min there (~3 min on an idle one)
 		nRun, nExtra, nCt, perShard = 2000, 800, 1200, 500
 		nFresh = 500 // (t-b, thorough-tier sizing) every program is one more oracle package: keep the total near 4500
+		nCidx = (len(cidxCombos()) + cidxSec - 1) / cidxSec // the whole table
 	}
 	if a.N > 0 {
 		nRun = a.N
@@ -827,7 +861,7 @@ func main() {
 			p.Kind = "extra" // replayed for the direct oracle
 		}
 		progs = []*prog{&p}
-		nRun, nExtra, nCt, nFresh = 0, 0, 0, 0
+		nRun, nExtra, nCt, nFresh, nCidx = 0, 0, 0, 0, 0
 	}
 	run := newRunner()
 	copyOK := vh.Catch(func() { run.ir.Eval("func Canary1() int { a := []int{1}; return copy(a, a) }") }) == nil
@@ -871,6 +905,46 @@ func main() {
 			rep.Dist(f)
 		}
 	}
+	// address matrix (addr.go): one program per int-like kind, &x of locals from depth 0..4; deterministic, the seed only
+	// rotates the layer shapes (4 rotations in the thorough tier)
+	if a.Replay == "" {
+		rots := 1
+		if a.Thorough() {
+			rots = 4
+		}
+		for r := 0; r < rots; r++ {
+			for ki, k := range addrKinds {
+				p, feats := genAddr(len(progs), k, int(a.Seed%4)+ki+r)
+				progs = append(progs, p)
+				for _, f := range feats {
+					rep.Dist(f)
+				}
+			}
+		}
+	}
+	// canaries of finding C08-4 (exact inputs: corpus/C08/04_*.json, 05_*.json): while they reproduce, the cidx generator
+	// writes a VARIABLE index on literals with self-referential element type resp. a non-nil pointer element
+	avoidConstIdxRec = vh.Catch(func() {
+		ir := fast.New()
+		ir.Eval("type L2 struct { First int; Rest *L2 }")
+		ir.Eval("func r5() []L2 { return [][]L2{[]L2{L2{1, nil}}}[0] }")
+		ir.Eval("r5()")
+	}) != nil
+	avoidNilPtrRec = vh.Catch(func() {
+		ir := fast.New()
+		ir.Eval("type L2 struct { First int; Rest *L2 }")
+		ir.Eval("[]*L2{nil}")
+	}) != nil
+	rep.Extra["defect_present:constant-index-of-literal-with-self-referential-element-type"] = avoidConstIdxRec
+	rep.Extra["defect_present:nil-element-of-pointer-to-self-referential-struct"] = avoidNilPtrRec
+	crng := vh.NewRng(a.Seed*7919 + 84) // own PRNG stream
+	for i := 0; i < nCidx; i++ {
+		p, feats := genCidx(crng.Fork(), len(progs), int(a.Seed%uint64(len(cidxCombos())))+cidxSec*i, cidxSec)
+		progs = append(progs, p)
+		for _, f := range feats {
+			rep.Dist(f)
+		}
+	}
 	// corpus programs keep their own function name: re-point Idx-based name
 	for _, p := range progs {
 		if p.Corpus != "" || a.Replay != "" {
@@ -899,6 +973,8 @@ func main() {
 	}
 	cw := vh.NewCases(a, "From Coq Require Import List ZArith.\nFrom Verif Require Import C08.Model.\nImport ListNotations.\nOpen Scope Z_scope.", "case", "mismatches", perShard)
 	wd := vh.NewWatchdog(rep, 120*time.Second) // generous: load average on the shared machine reaches 100+
+	registered := registeredKeys(os.Getenv("VERIF_DIR"))
+	deferred := []string{}
 	for _, p := range progs {
 		wd.Beat(p)
 		key := func(what string) string {
@@ -908,6 +984,10 @@ func main() {
 			return "prog:" + srcHash(p.Types+p.Src) + ":" + what
 		}
 		fail := func(what string, got, want interface{}) {
+			if p.Corpus != "" && p.Defer && !registered[key(what)] {
+				deferred = append(deferred, fmt.Sprintf("%s: %s: got %v want %v", key(what), what, got, want))
+				return
+			}
 			rep.Fail(vh.Failure{Key: key(what), What: what, Input: p, Got: got, Want: want})
 		}
 		g := run.exec(p)
@@ -979,5 +1059,6 @@ func main() {
 		}
 	}
 	cw.Close()
+	rep.Extra["deferred_corpus_failures"] = deferred
 	rep.Write()
 }
